@@ -284,7 +284,12 @@ def cli_partition(rec, rnd, tmp, k):
     for i in range(rnd.randint(3, 14)):
         rows.append('%04d-%02d-%02d,%s %d,%.2f' % (rnd.choice([2024, 2025]), rnd.randint(1, 12), rnd.randint(1, 28), rnd.choice(words), i % 3,
                                                  rnd.choice([1, 1, 1, -1]) * rnd.choice([5, 12.5, 99.99, 1234.56, 0.01, 250])))
-    rules = ('[Pay]\nmatch: contains("PAYROLL")\ncategory: Income\nsubcategory: Salary\ntags: income\n\n[Venmo]\nmatch: contains("VENMO")\ncategory: Transfers\n'
+    if rnd.random() < .4:
+        a = rnd.choice([500.0, 120.5])
+        rows += ['2025-03-01,CHASE AUTOPAY,%.2f' % a, '2025-03-02,CHASE AUTOPAY,%.2f' % -a, '2025-03-03,CHASE ANNUAL FEE,95.00']
+    rules = ('[Chase pay]\nmatch: contains("CHASE AUTOPAY")\nmerchant: Chase\ncategory: Transfers\nsubcategory: Card\ntags: transfer\n\n'
+             '[Chase fee]\nmatch: contains("CHASE ANNUAL")\nmerchant: Chase\ncategory: Fees\nsubcategory: Card\n\n'
+             '[Pay]\nmatch: contains("PAYROLL")\ncategory: Income\nsubcategory: Salary\ntags: income\n\n[Venmo]\nmatch: contains("VENMO")\ncategory: Transfers\n'
              'subcategory: P2P\ntags: Transfer\n\n[Fid]\nmatch: contains("FIDELITY")\ncategory: Savings\nsubcategory: 401k\ntags: investment\n\n'
              '[Netflix]\nmatch: contains("NETFLIX")\ncategory: Subs\nsubcategory: Video\n\n[Big]\nmatch: amount > 1000\ntags: large\n')
     nparts = rnd.randint(2, 4)
@@ -295,6 +300,7 @@ def cli_partition(rec, rnd, tmp, k):
     fault = rnd.choice(['missing', 'invalid-utf8', 'none'])
     # every file of the split keeps the same format string but its own conventions (delimiter, header line, sign), stated in its source entry
     convs = [rnd.choice(['plain', 'plain', 'semi', 'nohdr', 'neg']) for _ in range(nparts)]
+    same_name = rnd.random() < .3          # yearly files of one account, all listed under the account's name
     results = {}
     for variant in ('one', 'split'):
         root = os.path.join(tmp, 'p%d-%s' % (k, variant))
@@ -318,7 +324,7 @@ def cli_partition(rec, rnd, tmp, k):
                 hdr = '' if conv == 'nohdr' else ('Date;Description;Amount\n' if conv == 'semi' else 'Date,Description,Amount\n')
                 with open(os.path.join(root, 'data', 's%d.csv' % j), 'w') as f:
                     f.write(hdr + '\n'.join(lines) + ('\n' if lines else ''))
-                srcs.append(('S%d' % j, 'data/s%d.csv' % j, {'plain': '', 'semi': '    delimiter: ";"\n', 'nohdr': '    has_header: false\n',
+                srcs.append(('Checking' if same_name else 'S%d' % j, 'data/s%d.csv' % j, {'plain': '', 'semi': '    delimiter: ";"\n', 'nohdr': '    has_header: false\n',
                                                              'neg': '    negate_amount: true\n'}[conv]))
             if fault_at == nparts and fault != 'none':
                 srcs.append(('Broken', 'data/broken.csv', ''))
@@ -338,15 +344,24 @@ def cli_partition(rec, rnd, tmp, k):
             try:
                 js = B.json_from_stdout(p.stdout)
                 results[variant] = ('ok', {kk: v for kk, v in js.get('summary', {}).items()},
-                                    sorted((m['name'], round(m['total'], 2), m['count'], m['category']) for m in js.get('merchants', [])))
+                                    sorted((m['name'], round(m['total'], 2), m['count']) for m in js.get('merchants', [])))   # (the category LABEL of a merchant fed by two rules is not a figure)
             except Exception as e:
                 results[variant] = ('unparsable', str(e)[:100])
         shutil.rmtree(root, ignore_errors=True)
     rec.count('cli_partition_checks')
-    case = {'kind': 'cli-partition', 'rows': rows, 'parts': parts, 'fault': fault, 'fault_at': fault_at, 'conventions': convs}
+    case = {'kind': 'cli-partition', 'rows': rows, 'parts': parts, 'fault': fault, 'fault_at': fault_at, 'conventions': convs, 'same_name': same_name}
     a, b = results['one'], results['split']
     if a[0] != 'ok':
         return
+    # the summary's income and net-transfer figures against the bucket model of the rows themselves
+    amt = lambda r: float(r.rsplit(',', 1)[1])
+    desc = lambda r: r.split(',')[1]
+    want_inc = sum(abs(amt(r)) for r in rows if 'PAYROLL' in desc(r))
+    want_tr = abs(sum(amt(r) for r in rows if ('VENMO' in desc(r) or 'CHASE AUTOPAY' in desc(r))))
+    rec.count('cli_summary_vs_model_checks')
+    for key, want in (('income_total', want_inc), ('transfers_total', want_tr)):
+        if key in a[1] and abs(a[1][key] - want) > 0.011:
+            rec.violation('cli-summary-figure-differs:' + key, f'{key}={a[1][key]} in the JSON summary, the rows give {want:.2f}', case)
     if b[0] != 'ok':
         rec.violation('cli-partition:split-run-fails', f'all rows in one source: ok; split over {nparts} sources with a {fault} source: {b}', case)
         return
